@@ -115,8 +115,10 @@ class Track(object):
                     chord = NoteContainer().from_chord(chord)
                     if tun:
                         chord = tun.find_chord_fingering(chord, return_best_as_NoteContainer=True)
-                if not self.add_notes(chord, duration):
-                    # This should be the standard behaviour of add_notes
+                while not self.add_notes(chord, duration):
+                    # This should be the standard behaviour of add_notes:
+                    # fill the bar and carry the rest over the bar line (an
+                    # item longer than a bar crosses several)
                     dur = self.bars[-1].value_left()
                     self.add_notes(chord, dur)
 
@@ -124,7 +126,7 @@ class Track(object):
                     if chord is not None:
                         # the part after the bar line gets its own container
                         chord = NoteContainer(chord)
-                    self.add_notes(chord, value.subtract(duration, dur))
+                    duration = value.subtract(duration, dur)
 
         for c in chords:
             add_chord(c, duration)
